@@ -56,6 +56,7 @@ type VC struct {
 	trustNotes []string
 	safetyN    map[string]int
 	allowPanic bool
+	noSafety   bool
 	goroutines int
 	usedCallCl map[string]bool
 	qdepth     int
